@@ -99,7 +99,8 @@ TrCall ==
   /\ calls' = With(calls, Cur.nonce,
        [from |-> N, to |-> Cur.to, route |-> Cur.route, len |-> Cur.len, digest |-> Cur.digest,
         hdigest |-> Cur.hdigest, hsize |-> Get(Cur, "hsize", 0), t0 |-> Cur.t,
-        delay |-> Get(Cur, "delay", 0) * 1000, outT |-> -2] @@
+        delay |-> Get(Cur, "delay", 0) * 1000,
+        outT |-> IF Has(Cur, "raw") THEN NoT ELSE -2] @@     \* raw: written by an adversary endpoint, no anemo client stack
        (IF Has(Cur, "timeout_hdr") THEN [thdr |-> Cur.timeout_hdr] ELSE <<>>))
   /\ lastCall' = Cur.nonce
   /\ UNCHANGED <<ncfg, started, ended, gone, abandoned, result, faulty, pendIn>>
@@ -182,7 +183,7 @@ TrResult ==
      /\ Get(Cur, "must_succeed", FALSE) => Cur.ok
      /\ IF Cur.ok
         THEN /\ ReqFits(c)
-             /\ Cur.peer_seen = c.to                                   \* ExtLocal on the response
+             /\ Has(Cur, "peer_seen") => Cur.peer_seen = c.to           \* ExtLocal on the response
              /\ IF q \in DOMAIN ended /\ Cur.status # 408
                 THEN /\ Cur.status = ended[q].status /\ Cur.len = ended[q].len      \* Pairing
                      /\ Cur.digest = ended[q].digest /\ Cur.hdigest = ended[q].hdigest
